@@ -41,7 +41,7 @@ Value& IMAGExpression::value(Context & ctx) const
     break;
   case Type::IMAGINARY:
     if (val.isNull())
-      return val;
+      break;
     v = Value(Numeric(std::abs(IMAGINARY_TO_COMPLEX(*val.imaginary()))));
     break;
   default:
